@@ -13,7 +13,7 @@ From Irismod Require Import Genesis.Store.
     iterates), and [reachable_<mod>] proves [invb (abs (run h)) = true] for every history [h] from that
     model's proved invariants (plus small extra invariants proved over its step function).  The C12
     statements then quantify over histories. *)
-From Irismod Require Genesis.LinkRecord Genesis.LinkCoinswap Genesis.LinkRandom Genesis.LinkNft Genesis.LinkMt Genesis.LinkHtlc Genesis.LinkToken Genesis.LinkFarm.
+From Irismod Require Genesis.LinkRecord Genesis.LinkCoinswap Genesis.LinkRandom Genesis.LinkNft Genesis.LinkMt Genesis.LinkHtlc Genesis.LinkToken Genesis.LinkFarm Genesis.LinkHtlcParams.
 
 Module LinkRecordC12.
 Import Genesis.LinkRecord.
@@ -343,3 +343,39 @@ Theorem farm_history_fixpoint_and_queries :
 Proof. exact LinkFarm.farm_history_fixpoint_and_queries. Qed.
 Print Assumptions farm_history_fixpoint_and_queries.
 End LinkFarmC12.
+
+(** ** htlc, round 5: the same for histories WITH parameter changes, the compatible ones.  [wfp_run]: as the htlc
+    group's [wf_run] (an accepted MsgUpdateParams keeps the supported denoms and its limits cover the stored
+    supplies: [compat_b]) plus [keeps_active] (an active asset stays active) — together this group's
+    [params_cover]; a change outside them can make the export un-importable (the known finding).  The histories
+    without parameter changes of [LinkHtlcC12] are the special case [wf0_wfp]. *)
+Module LinkHtlcParamsC12.
+Import Genesis.LinkHtlc Genesis.LinkHtlcParams.
+
+Theorem reachable_htlc_params :
+  forall (rk : M.cid -> Z) (hl : M.hlock -> Z) (rs : Z -> Z) (oth : M.cid -> Z * Z),
+  (forall id, fst (oth id) <= 128 /\ snd (oth id) <= 128) ->
+  forall P b t0 ops, M.params_valid P = true -> MP.escrow_empty b -> wfp_run (M.init P b t0) ops -> Forall ts_ok ops ->
+  inj_on rk (map fst (M.st_contracts (MP.reachable P b t0 ops))) ->
+  G.invb true (abs_o rk hl rs oth (MP.reachable P b t0 ops)) = true.
+Proof. exact LinkHtlcParams.reachable_htlc_params. Qed.
+Print Assumptions reachable_htlc_params.
+
+Theorem htlc_params_history_export_validates :
+  forall (rk : M.cid -> Z) (hl : M.hlock -> Z) (rs : Z -> Z) (oth : M.cid -> Z * Z),
+  (forall id, fst (oth id) <= 128 /\ snd (oth id) <= 128) ->
+  forall P b t0 ops, M.params_valid P = true -> MP.escrow_empty b -> wfp_run (M.init P b t0) ops -> Forall ts_ok ops ->
+  inj_on rk (map fst (M.st_contracts (MP.reachable P b t0 ops))) ->
+  G.validate true (G.export (abs rk hl rs oth (MP.reachable P b t0 ops))) = true.
+Proof. exact LinkHtlcParams.htlc_params_history_export_validates. Qed.
+Print Assumptions htlc_params_history_export_validates.
+
+Theorem htlc_params_history_import_is_open_part :
+  forall (rk : M.cid -> Z) (hl : M.hlock -> Z) (rs : Z -> Z) (oth : M.cid -> Z * Z),
+  (forall id, fst (oth id) <= 128 /\ snd (oth id) <= 128) ->
+  forall P b t0 ops, M.params_valid P = true -> MP.escrow_empty b -> wfp_run (M.init P b t0) ops -> Forall ts_ok ops ->
+  inj_on rk (map fst (M.st_contracts (MP.reachable P b t0 ops))) ->
+  G.import true (G.export (abs rk hl rs oth (MP.reachable P b t0 ops))) = Some (abs_o rk hl rs oth (MP.reachable P b t0 ops)).
+Proof. exact LinkHtlcParams.htlc_params_history_import_is_open_part. Qed.
+Print Assumptions htlc_params_history_import_is_open_part.
+End LinkHtlcParamsC12.
